@@ -83,15 +83,21 @@ def parse_rfc3339_datetime(rfc3339):
     We primarily need this in the Wait state so we can compute timeouts etc.
     """
     rfc3339 = rfc3339.strip()  # Remove any leading/trailing whitespace
-    if rfc3339[-1] == "Z":
+    if rfc3339[-1] in "Zz":  # RFC 3339 allows the lower case forms of T and Z
         date = rfc3339[:-1]
         offset = "+00:00"
     else:
         date = rfc3339[:-6]
         offset = rfc3339[-6:]
+    date = date.replace("t", "T")
 
     if "." not in date:
         date = date + ".0"
+    else:
+        # RFC 3339 allows any number of fraction digits, %f at most six.
+        whole, fraction = date.split(".", 1)
+        if fraction.isdigit():
+            date = whole + "." + fraction[:6]
     raw_datetime = datetime.strptime(date, "%Y-%m-%dT%H:%M:%S.%f")
     delta = timedelta(hours=int(offset[-5:-3]), minutes=int(offset[-2:]))
     if offset[0] == "-":
